@@ -59,7 +59,7 @@ def configs(tier, seed):
                                  timeout=900, core=k <= 2))
             cfgs.append(dict(name="weights:%s:%s:K1:omitted" % (pub, fam), kind="weights", pub=pub, fam=fam, K=1, total="omitted", cost=4))
             cfgs.append(dict(name="objective:%s:%s" % (pub, fam), kind="objective", pub=pub, fam=fam, cost=1))
-        cfgs.append(dict(name="history:%s" % pub, kind="history", pub=pub, K=1, cost=6))
+        cfgs.append(dict(name="history:%s" % pub, kind="history", pub=pub, K=0 if tier == "quick" else 1, cost=6))
     return cfgs
 
 
